@@ -29,10 +29,45 @@ POOL = {
     "Si++++": ("Si", False, 0, 4), "N2D+": ("N2D", False, 0, 1),
 }
 ELECTRON = {"e-": ("e", False, 0, -1), "E": ("E", False, 0, -1), "E-": ("E", False, 0, -1)}
+# the upper-case naming convention (UCLCHEM style): element list in capitals; the identifier uses the standard symbols.
+#        name: (base in standard symbols, surface, sgroup, charge, the name after element replacement)
+UPPER_ELEMENTS = ["E", "H", "HE", "C", "N", "O", "NA", "MG", "SI", "S", "CL", "FE", "NI"]
+UPPER_PSEUDO = ["CR", "CRP", "PHOTON", "CRPHOT"]
+UPPER_REPLACEMENT = {"HE": "He", "NA": "Na", "MG": "Mg", "SI": "Si", "CL": "Cl", "FE": "Fe", "NI": "Ni"}
+POOL_UPPER = {
+    "H": ("H", False, 0, 0, "H"), "H2": ("H2", False, 0, 0, "H2"), "H+": ("H", False, 0, 1, "H+"), "HE": ("He", False, 0, 0, "He"),
+    "HE+": ("He", False, 0, 1, "He+"), "C": ("C", False, 0, 0, "C"), "C+": ("C", False, 0, 1, "C+"), "CO": ("CO", False, 0, 0, "CO"),
+    "O": ("O", False, 0, 0, "O"), "N": ("N", False, 0, 0, "N"), "N+": ("N", False, 0, 1, "N+"), "NO": ("NO", False, 0, 0, "NO"),
+    "S": ("S", False, 0, 0, "S"), "S+": ("S", False, 0, 1, "S+"), "S++": ("S", False, 0, 2, "S++"), "SI": ("Si", False, 0, 0, "Si"),
+    "SI+": ("Si", False, 0, 1, "Si+"), "SIO": ("SiO", False, 0, 0, "SiO"), "SIH4": ("SiH4", False, 0, 0, "SiH4"), "MG": ("Mg", False, 0, 0, "Mg"),
+    "MG+": ("Mg", False, 0, 1, "Mg+"), "NA+": ("Na", False, 0, 1, "Na+"), "CL": ("Cl", False, 0, 0, "Cl"), "HCL": ("HCl", False, 0, 0, "HCl"),
+    "FE+": ("Fe", False, 0, 1, "Fe+"), "NI": ("Ni", False, 0, 0, "Ni"), "NI+": ("Ni", False, 0, 1, "Ni+"), "#CO": ("CO", True, 0, 0, "#CO"),
+    "#SIO": ("SiO", True, 0, 0, "#SiO"), "#HCL": ("HCl", True, 0, 0, "#HCl"), "CS": ("CS", False, 0, 0, "CS"), "SO": ("SO", False, 0, 0, "SO"),
+    "E-": ("E", False, 0, -1, "E-"),
+}
+UPPER_BY_REPLACED = {v[4]: v for v in POOL_UPPER.values()}
 
 
-def attrs(name):
+def attrs(name, upper=False):
+    if upper:
+        return (POOL_UPPER.get(name) or UPPER_BY_REPLACED[name])[:4]
     return POOL.get(name) or ELECTRON[name]
+
+
+def gen_upper_case(rng: random.Random):
+    """a network in the upper-case convention, with or without the element replacement table of the render route"""
+    repl = rng.random() < 0.5
+    # without the replacement table the built-in binding energies (keyed by standard spelling) do not cover upper-case ices
+    avail = [x for x in sorted(POOL_UPPER) if repl or x not in ("#SIO", "#HCL")]
+    names = rng.sample(avail, rng.randint(4, 14))
+    reactions = []
+    for _ in range(rng.randint(2, 9)):
+        r = [rng.choice(names) for _ in range(rng.choice([1, 2, 2, 3]))]
+        p = [rng.choice(names) for _ in range(rng.choice([0, 1, 2, 2, 3]))]
+        reactions.append((r, p))
+    used = {x for r, p in reactions for x in r + p}
+    return {"reactions": reactions, "required": [x for x in names if x not in used][: rng.randint(0, 2)], "incremental": rng.random() < 0.5,
+            "upper": True, "replacement": repl}
 
 
 def gen_case(rng: random.Random):
@@ -55,10 +90,19 @@ def build(case):
     from naunet.network import Network
     from naunet.reactions.reaction import Reaction
     from naunet.reactiontype import ReactionType
+    from naunet.species import Species
     mk = lambda r, p: Reaction(list(r), list(p), alpha=1e-10, reaction_type=ReactionType.GAS_TWOBODY)
+    Species.reset()
+    kw = {}
+    if case.get("upper"):
+        kw = {"elements": list(UPPER_ELEMENTS), "pseudo_elements": list(UPPER_PSEUDO)}
+        Species.set_known_elements(list(UPPER_ELEMENTS))
+        Species.set_known_pseudoelements(list(UPPER_PSEUDO))
+        if case.get("replacement"):
+            Species._replacement = dict(UPPER_REPLACEMENT)      # as `naunet render` installs the [chemistry.element] replacement table
     if not case["incremental"]:
-        return Network([mk(r, p) for r, p in case["reactions"]], required_species=case["required"])
-    net = Network(required_species=case["required"])
+        return Network([mk(r, p) for r, p in case["reactions"]], required_species=case["required"], **kw)
+    net = Network(required_species=case["required"], **kw)
     for k, (r, p) in enumerate(case["reactions"]):
         net.add_reaction(mk(r, p))
         if k % 2 == 0:
@@ -97,7 +141,7 @@ def make_trace(ctx, tid, case, net, k):
     species = []
     for c in reps:
         nm = kept[id(c)].name if kept[id(c)] is not None else c.name
-        base, surf, grp, q = attrs(nm)
+        base, surf, grp, q = attrs(nm, case.get("upper", False))
         species.append({"name": nm, "rank": allnames.index(nm) + 1, "degree": len(conn[id(c)]), "base": chars(base), "surface": surf,
                         "sgroup": grp, "charge": q})
     rank_of = {s["name"]: s["rank"] for s in species}
@@ -169,7 +213,7 @@ def main(ctx: Ctx) -> int:
     traces = []
     n = 40 if ctx.quick else 600
     for k in range(n):
-        case = gen_case(rng)
+        case = gen_upper_case(rng) if k % 4 == 3 else gen_case(rng)
         try:
             net = build(case)
             traces.append(make_trace(ctx, len(traces) + 1, case, net, k))
